@@ -47,11 +47,86 @@ def _envjson(env):
     return {k: (str(v) if isinstance(v, F) else v) for k, v in (env or {}).items()}
 
 
+def _fidelity_witness(p, hh, rng):
+    full = (len(p.domain), len(p.pc), len(p.defs), len(p.assumes))
+    base = _constraints(p, full)
+    for attempt in range(3):
+        s = z3.Solver()
+        s.set('timeout', 3000)
+        for c in base:
+            s.add(c)
+        if attempt < 2:
+            for n, v in p.inputs.items():
+                if v.sort() != z3.RealSort():
+                    continue
+                t = rng.uniform(-1, 1) * (1.0 if attempt == 0 else 0.5)
+                w = 0.35 if attempt == 0 else 0.6
+                s.add(v >= z3.RealVal(repr(round(t - w, 3))), v <= z3.RealVal(repr(round(t + w, 3))))
+        if s.check() != z3.sat:
+            continue
+        m = s.model()
+        env = {}
+        for n, v in p.inputs.items():
+            val = solve.model_value(m, v)
+            if val is not None:
+                env[n] = val
+        outs = {}
+        try:
+            for n, arr in hh.outs.items():
+                vals = []
+                for e in _np.asarray(arr, dtype=object).ravel():
+                    if isinstance(e, core.SymBool):
+                        vals.append(None)
+                        continue
+                    val = solve.model_value(m, core.lift(e))
+                    vals.append(None if val is None else builtins.float(val))
+                outs[n] = vals
+        except BaseException:
+            return None
+        return dict(env=_envjson(env), outs=outs, generic=attempt < 2)
+    return None
+
+
+def fidelity_compare(pid, hname, fw, tier='quick', tol=1e-6):
+    """run the unpatched code on the witness inputs; compare every observed output with the value its symbolic term
+    takes under the same model. -> (n_compared, n_mismatch, detail)"""
+    load_property_module(pid)
+    h = REGISTRY[hname]
+    res = run_conc(h, env_floats(fw['env']), tier=tier)
+    if res['assume_failed']:
+        return 0, 0, 'witness not in the float domain'
+    n = bad = 0
+    detail = []
+    for name, vals in fw['outs'].items():
+        if name not in res['outs']:
+            continue
+        conc = _np.asarray(res['outs'][name], dtype=builtins.float).ravel()
+        if len(conc) != len(vals):
+            bad += 1
+            detail.append(f"{name}: size {len(conc)} vs {len(vals)}")
+            continue
+        sgn = 1.0
+        if name in res.get('mod_sign', ()):
+            d1 = sum(abs(a - b) for a, b in zip(conc, vals) if b is not None)
+            d2 = sum(abs(a + b) for a, b in zip(conc, vals) if b is not None)
+            sgn = 1.0 if d1 <= d2 else -1.0
+        for a, b in zip(conc, vals):
+            if b is None:
+                continue
+            n += 1
+            if not (abs(a - sgn * b) <= tol * (1 + abs(b))):
+                bad += 1
+                if len(detail) < 5:
+                    detail.append(f"{name}: code={a!r} term={b!r}")
+    return n, bad, detail
+
+
 def _sym_worker(pid, hname, tier, conn, quick_ms):
     """runs in a forked child: explore + in-process solving. Sends a picklable result dict."""
     t0 = time.time()
     result = dict(harness=hname, paths=0, truncated=False, records=[], unsupported=[], events=[], stats={},
-                  reach=None, error=None, notes=[], path_outcomes=[])
+                  reach=None, error=None, notes=[], path_outcomes=[], fidelity=[])
+    rng = random.Random(int(os.environ.get('VERIF_SEED', '0') or 0) * 7919 + 13)
     try:
         load_property_module(pid)
         h = REGISTRY[hname]
@@ -112,6 +187,12 @@ def _sym_worker(pid, hname, tier, conn, quick_ms):
                                                  max(tmo, 5000), p.inputs)
                 if st == 'sat':
                     reach = dict(path=pi, env=_envjson(env))
+            # fidelity witness: a generic model of this path and the value of every observed output term under it
+            if hh is not None and hh.outs and len(result['fidelity']) < 4 and outcome == 'ok':
+                fw = _fidelity_witness(p, hh, rng)
+                if fw is not None:
+                    fw['path'] = pi
+                    result['fidelity'].append(fw)
             for o in obls:
                 cons = _constraints(p, o['snap']) + [o['bad']]
                 st, env, dt = solve.solve_inproc(cons, tmo, p.inputs)
@@ -131,7 +212,7 @@ def _sym_worker(pid, hname, tier, conn, quick_ms):
         conn.send(result)
     except Exception as e:
         conn.send(dict(harness=hname, error=f"cannot send result: {e}", records=[], paths=0, unsupported=[], events=[],
-                       stats={}, reach=None, notes=[], truncated=False, wall=0, path_outcomes=[]))
+                       stats={}, reach=None, notes=[], truncated=False, wall=0, path_outcomes=[], fidelity=[]))
     conn.close()
 
 
@@ -226,11 +307,11 @@ def env_floats(env):
     return out
 
 
-def replay(pid, hname, env, tier='quick'):
+def replay(pid, hname, env, tier='quick', replay_kf=None):
     """concrete replay of a model on the unpatched code. -> (reproduces, detail)"""
     load_property_module(pid)
     h = REGISTRY[hname]
-    res = run_conc(h, env_floats(env), tier=tier)
+    res = run_conc(h, env_floats(env), tier=tier, replay_kf=replay_kf)
     detail = dict(failed=res['failed'], nonfinite=res['nonfinite'], assume_failed=[str(a) for a in res['assume_failed']],
                   exc=None if res['exc'] is None else f"{type(res['exc']).__name__}: {res['exc']}",
                   inputs=res['sampled'])
